@@ -201,7 +201,7 @@ def run(ctx):
                 ex = session.build_exes({'prod': (sc, drv, []), 'san': (sc, drv, [])})
             else:
                 ex = session.build_exes({sc: (sc, drv, [])})
-            only = [0, 1, 9] if ctx.quick else None
+            only = [0, 1, 9] if ctx.quick else [0, 1, 2, 3, 4, 5, 8, 9, 14, 15]
             try:
                 session.run_shards(sub, mod.worker, 16, ex, {'cfgs': [sc]}, only=only)
             except harness.HarnessError as e:
